@@ -8,8 +8,14 @@ LEVEL_TEXT = ('Every obligation is an SMT query over all values of the symbolic 
               "/repo's current working tree; unsat = holds within the stated bounds, sat = concrete counterexample which is replayed against the real library before "
               'it is reported. Bounded (loop unrollings, list lengths, chunk counts are stated in the evidence), so this is bounded model checking of the real code, not a proof.')
 
+BASE = ('Trusted base: the contract models listed in evidence.models_used (std collections, tokio fs, serde_json parse/print oracles, aws-lc-rs signature/digest as '
+        'uninterpreted predicates, Url::join, the Transport as an adversarial script); awaited operations complete (no cancellation), cycles do not overlap. ')
 CHECKS = {
- 'C04': dict(ref='§4 C04', note='Trusted base: the contract models listed in evidence.models_used (tokio fs, serde_json parse/print oracles, chrono ordering as signed 64-bit order, Utc::now as a fresh unconstrained instant per call); Root::verify_role is the C01 oracle here; awaited operations complete (no cancellation), one cycle at a time.'),
+ 'C01': dict(ref='§4 C01', note=BASE + 'Signature validity is an uninterpreted predicate Valid(key, canonical content, sig); <=3 (quick) / <=4 (thorough) signatures over 8 key ids; call sites checked on the workflow summaries with <=2 root hops; delegated-role sites by the delegation harness.'),
+ 'C02': dict(ref='§4 C02', note=BASE + 'Root::verify_role is the C01 oracle V(root, doc); <=2 (quick) / <=3 (thorough) adopted hops plus a terminating probe; longer chains outside the claim.'),
+ 'C03': dict(ref='§4 C03', note=BASE + 'Histories of 2..3 (quick) / 2..4 (thorough) cycles composed from per-function summaries; one root hop per cycle; one key per online role; the shipped root is the same in all cycles; root key holders do not equivocate (one root document per version / per N.root.json). Two recorded findings (trusted root not persisted) are excluded by class and re-demonstrated natively on every run.'),
+ 'C04': dict(ref='§4 C04', note=BASE + 'Instants are mathematical integers that are only compared; every Utc::now() is a fresh unconstrained instant; Root::verify_role is the C01 oracle here.'),
+ 'C05': dict(ref='§4 C05', note=BASE + 'Sha-256 is a function of the sequence of accepted chunks; <=1 (quick) / <=2 (thorough) chunks per file; delegation trees of depth <=2 (quick) / <=3 (thorough).'),
 }
 
 NA = {
